@@ -130,6 +130,48 @@ def _snapshot_models(ctx, models, op, extra=None):
         ctx.in_probe -= 1
 
 
+def _iter_snapshot(ctx, tr, where="iteration"):
+    ps = ctx.probe
+    ctx.in_probe += 1
+    try:
+        rec = {"seq": ctx.world.tick(), "where": where}
+        try:
+            rec["radius"] = float(tr.radius)
+            rec["resolution"] = float(tr.resolution)
+            rec["penalty"] = float(tr.penalty)
+            rec["best"] = int(tr.best_index)
+            rec["rhoend"] = float(ps.options["radius_final"])
+            m = tr.models
+            info = ps.pbinfo
+            merits = []
+            viols = []
+            for k in range(m.npt):
+                # own merit value from the stored tables (no solver code,
+                # no user call): f + penalty * ||violation||_2
+                xk = np.array(m.interpolation.point(k), dtype=float)
+                parts = [np.maximum(info["a_ub"] @ xk - info["b_ub"], 0.0),
+                         np.abs(info["a_eq"] @ xk - info["b_eq"]),
+                         np.maximum(np.array(m.cub_val[k, :], dtype=float), 0.0),
+                         np.abs(np.array(m.ceq_val[k, :], dtype=float))]
+                cv = np.concatenate(parts)
+                mv = float(m.fun_val[k])
+                if rec["penalty"] > 0.0 and np.count_nonzero(cv):
+                    mv += rec["penalty"] * float(np.linalg.norm(cv))
+                merits.append(mv)
+                viols.append(float(np.max(cv, initial=0.0)))
+            rec["viols"] = viols
+            rec["merits"] = merits
+            rec["npt"] = int(m.npt)
+            rec["n"] = int(m.n)
+        except Exception as e:
+            rec["error"] = "%s: %s" % (type(e).__name__, e)
+            ps.errors.append(rec["error"])
+        ps.iters.append(rec)
+    finally:
+        ctx.in_probe -= 1
+
+
+
 def install(cobyqa):
     """Install all wrappers once per process."""
     global INSTALLED
@@ -289,6 +331,9 @@ def install(cobyqa):
                 rec["excess"] = float(np.max(ex, initial=0.0))
                 rec["outside"] = bool(np.any(over > 0.0))
             ps.kinds[kind] = ps.kinds.get(kind, 0) + 1
+            if kind != "init" and ps.framework is not None and getattr(ps.framework, "_models", None) is not None:
+                # the centre must be consistent with the penalty in force whenever a trial point is evaluated
+                _iter_snapshot(ctx, ps.framework, where="evaluation:" + kind)
             ctx.log({"k": "begin", "kind": kind, "xi": rec["xi"]})
             try:
                 out = orig(self, x, penalty)
@@ -329,46 +374,6 @@ def install(cobyqa):
                     ps.errors.append("tr_init: %s" % e)
         return __init__
     wrap(F.TrustRegion, "__init__", mk_tr_init)
-
-    def _iter_snapshot(ctx, tr):
-        ps = ctx.probe
-        ctx.in_probe += 1
-        try:
-            rec = {"seq": ctx.world.tick()}
-            try:
-                rec["radius"] = float(tr.radius)
-                rec["resolution"] = float(tr.resolution)
-                rec["penalty"] = float(tr.penalty)
-                rec["best"] = int(tr.best_index)
-                rec["rhoend"] = float(ps.options["radius_final"])
-                m = tr.models
-                info = ps.pbinfo
-                merits = []
-                viols = []
-                for k in range(m.npt):
-                    # own merit value from the stored tables (no solver code,
-                    # no user call): f + penalty * ||violation||_2
-                    xk = np.array(m.interpolation.point(k), dtype=float)
-                    parts = [np.maximum(info["a_ub"] @ xk - info["b_ub"], 0.0),
-                             np.abs(info["a_eq"] @ xk - info["b_eq"]),
-                             np.maximum(np.array(m.cub_val[k, :], dtype=float), 0.0),
-                             np.abs(np.array(m.ceq_val[k, :], dtype=float))]
-                    cv = np.concatenate(parts)
-                    mv = float(m.fun_val[k])
-                    if rec["penalty"] > 0.0 and np.count_nonzero(cv):
-                        mv += rec["penalty"] * float(np.linalg.norm(cv))
-                    merits.append(mv)
-                    viols.append(float(np.max(cv, initial=0.0)))
-                rec["viols"] = viols
-                rec["merits"] = merits
-                rec["npt"] = int(m.npt)
-                rec["n"] = int(m.n)
-            except Exception as e:
-                rec["error"] = "%s: %s" % (type(e).__name__, e)
-                ps.errors.append(rec["error"])
-            ps.iters.append(rec)
-        finally:
-            ctx.in_probe -= 1
 
     def mk_tr_step(orig):
         def get_trust_region_step(self, options):
